@@ -112,6 +112,13 @@ structure Refs (t : Tables) : Prop where
 structure Inv (w : World) : Prop extends Inv0 w where
   refs : Refs (tables w)
 
+/-- the table entry a successful `network_connect(_timeo)` makes: out of addresses at once (an immediate
+event will report -1), or waiting for descriptor `s` to connect (with a timer if a timeout was asked for) -/
+def connEntry (c : Nat) (addrs : List Connect.AddrOutcome) (timeo : Option Int) (s : Nat) : Conn :=
+  match skipFailNow addrs with
+  | [] => ⟨c, none, false, true⟩
+  | _ :: _ => ⟨c, some s, timeo.isSome, false⟩
+
 /-- what a failed call must leave as it was: the blocks owned by objects, every table, the registry,
 and the double-free counter -/
 structure Same (w w' : World) : Prop where
